@@ -172,7 +172,24 @@ func (in *Inst) Close() {
 }
 
 // construct brings a fresh FS to a non-empty initial model state using plain primitives.
-func (in *Inst) construct(init *tla.Value) error {
+func (in *Inst) construct(init *tla.Value) error { return Construct(in.fs, init, in.name) }
+
+// Construct populates fs with the entries of a model tree (root excluded).
+func Construct(fs hackpadfs.FS, init *tla.Value, name func(string) string) error {
+	in := &Inst{cfg: &Config{}, fs: fs}
+	if name != nil {
+		nm := map[string]string{}
+		init.Pairs(func(k, v *tla.Value) {
+			for i := range k.E {
+				nm[k.E[i].S] = name(k.E[i].S)
+			}
+		})
+		in.cfg.NameMap = nm
+	}
+	return in.constructImpl(init)
+}
+
+func (in *Inst) constructImpl(init *tla.Value) error {
 	type pe struct {
 		p string
 		v *tla.Value
@@ -456,7 +473,8 @@ func (in *Inst) CheckResult(call, tr *tla.Value, obsAny any) []engine.Div {
 		if p := call.F("p"); len(p.E) > 0 {
 			wantName = in.name(p.E[len(p.E)-1].S)
 		}
-		if so.Name != wantName && !(cfg.Reference && wantName == ".") {
+		atMount := strings.HasPrefix(tr.F("b").S, "at|") // Stat of a mount point is Stat(".") of the mounted FS
+		if so.Name != wantName && !(cfg.Reference && wantName == ".") && !atMount {
 			add(cfg.PropState, "stat name", fmt.Sprintf("got %q want %q", so.Name, wantName))
 		}
 	case "readdir":
@@ -623,13 +641,33 @@ func (in *Inst) closure() ([]string, map[string]bool) {
 }
 
 func (in *Inst) CheckState(exp *tla.Value, call, tr *tla.Value) []engine.Div {
+	return in.CompareTree(in.fs, in.Expected(exp, tr), call, tr, "")
+}
+
+// Expected returns the state to compare with: after a tolerated root-emptying call that
+// succeeded it is the transition's alternative outcome.
+func (in *Inst) Expected(exp, tr *tla.Value) *tla.Value {
+	if in.emptied && tr != nil {
+		if alt := tr.Get("alt"); alt != nil && alt.K != tla.Str {
+			return alt
+		}
+	}
+	return exp
+}
+
+// NewProbe returns an Inst usable for Apply/CheckResult/CompareTree on an externally built FS.
+func NewProbe(cfg *Config, fs hackpadfs.FS) *Inst { return &Inst{cfg: cfg, fs: fs} }
+
+// CompareTree projects fs over the closure and compares it with the model tree exp;
+// tag is prepended to the class of each disagreement (e.g. the constituent FS it was seen in).
+func (in *Inst) CompareTree(fs hackpadfs.FS, exp *tla.Value, call, tr *tla.Value, tag string) []engine.Div {
 	cfg := in.cfg
 	var divs []engine.Div
 	add := func(prop, what, detail string) {
-		divs = append(divs, engine.Div{Prop: prop, Sig: in.sig(call, tr, what), Detail: detail})
+		divs = append(divs, engine.Div{Prop: prop, Sig: in.sig(call, tr, tag+what), Detail: detail})
 	}
 	closure, cset := in.closure()
-	tree, problems := Project(in.fs, closure)
+	tree, problems := Project(fs, closure)
 	for _, p := range problems {
 		add(cfg.PropState, "projection "+strings.SplitN(p, " ", 2)[0], p)
 	}
@@ -643,15 +681,7 @@ func (in *Inst) CheckState(exp *tla.Value, call, tr *tla.Value) []engine.Div {
 		}
 	}
 	want := map[string]*tla.Value{}
-	if !in.emptied {
-		exp.Pairs(func(k, v *tla.Value) { want[in.path(k)] = v })
-	} else {
-		exp.Pairs(func(k, v *tla.Value) {
-			if len(k.E) == 0 {
-				want["."] = v
-			}
-		})
-	}
+	exp.Pairs(func(k, v *tla.Value) { want[in.path(k)] = v })
 	cls := map[string]bool{}
 	for p, w := range want {
 		g := tree[p]
